@@ -5,6 +5,7 @@ package cases
 import (
 	"encoding/json"
 	"os"
+	"sync"
 )
 
 type box struct {
@@ -486,3 +487,176 @@ func loopWithCallWrong(p *pair, n int) int {
 	}
 	return p.a
 }
+
+// ---- sixth batch: loops and joins over the heap, dynamic calls, nested loops ----
+
+func loopCallNoInvariant(p *pair, n int) int {
+	p.a = 3
+	for i := 0; i < n; i++ {
+		setA(p)
+	}
+	return p.a
+}
+
+func joinHeap(p *pair, c bool) int {
+	if c {
+		p.a = 1
+	}
+	return p.a
+}
+
+type holder struct {
+	fn func()
+	n  int
+}
+
+func mkHolder(h *holder) { h.fn = func() { h.n = 9 } }
+
+func (h *holder) run() int {
+	h.n = 1
+	h.fn()
+	return h.n
+}
+
+func nestedLoops(n int) int {
+	s := 0
+	for i := 0; i < n; i++ {
+		for j := 0; j < n; j++ {
+			s++
+		}
+	}
+	return s
+}
+
+func earlyReturn(xs []int) int {
+	for i := 0; i < len(xs); i++ {
+		if xs[i] == 0 {
+			return i
+		}
+	}
+	return -1
+}
+
+func labeled(xss [][]int) int {
+	n := 0
+outer:
+	for i := 0; i < len(xss); i++ {
+		for j := 0; j < len(xss[i]); j++ {
+			if xss[i][j] < 0 {
+				continue outer
+			}
+			if xss[i][j] == 0 {
+				break outer
+			}
+			n++
+		}
+	}
+	return n
+}
+
+func mapLoop(m map[string]int, keys []string) int {
+	for _, k := range keys {
+		m[k] = 1
+	}
+	return len(m)
+}
+
+func strBuild(n int) string {
+	s := ""
+	for i := 0; i < n; i++ {
+		s += "x"
+	}
+	return s
+}
+
+func deleteKey(m map[string]int) bool {
+	m["a"] = 1
+	delete(m, "a")
+	_, ok := m["a"]
+	return ok
+}
+
+func useHolder(h *holder) int { mkHolder(h); return h.run() }
+
+// ---- seventh batch: type invariants, nonnil fields, interface contracts ----
+
+type acct struct {
+	bal int
+	log []int
+}
+
+func (a *acct) withdraw(n int) { a.bal -= n }
+
+func (a *acct) deposit(n int) {
+	if n > 0 {
+		a.bal += n
+	}
+}
+
+func readBal(a *acct) int { return a.bal }
+
+func useAcct(a *acct) int { a.withdraw(1); a.deposit(1); return readBal(a) }
+
+type shape interface{ area() int }
+
+type sq struct{ s int }
+type neg struct{}
+
+func (q *sq) area() int { return q.s * q.s }
+func (*neg) area() int  { return -1 }
+func total(x shape) int { return x.area() }
+func mkShapes() []shape { return []shape{&sq{2}, &neg{}} }
+
+// ---- eighth batch: declarations that are assumed everywhere must be checked everywhere ----
+
+type wrap struct{ p *pair }
+
+func clearP(w *wrap) { w.p = nil }
+
+func readP(w *wrap) int { return w.p.a }
+
+type counter struct {
+	mu sync.Mutex
+	n  int
+}
+
+func (c *counter) inc() {
+	c.mu.Lock()
+	c.n++
+	c.mu.Unlock()
+}
+
+func (c *counter) racy() { c.n++ }
+
+func useCounter(c *counter, w *wrap) int { c.inc(); c.racy(); clearP(w); return readP(w) }
+
+// ---- ninth batch: guarded containers must not leave their critical section ----
+
+type reg struct {
+	mu sync.Mutex
+	m  map[string]int
+}
+
+func (r *reg) leak() map[string]int { return r.m }
+
+func (r *reg) snapshot() map[string]int {
+	r.mu.Lock()
+	defer r.mu.Unlock()
+	c := map[string]int{}
+	for k, v := range r.m {
+		c[k] = v
+	}
+	return c
+}
+
+func consume(m map[string]int) int { return len(m) }
+
+func (r *reg) pass() int { return consume(r.m) }
+
+func (r *reg) passLocked() int {
+	r.mu.Lock()
+	defer r.mu.Unlock()
+	return consume(r.m)
+}
+
+func useReg(r *reg) int { return len(r.leak()) + len(r.snapshot()) + r.pass() + r.passLocked() }
